@@ -393,6 +393,9 @@ Definition guard_dropped (k : nat) (need : ophase) (o : ostate) : ostate :=
 Definition ostep {C : Type} (lim : option nat) (o : ostate) (p : op C) (l : list obs) : ostate :=
   if negb (h_stop (o_v o)) then o else      (* outside stops_after_error: nothing is checked *)
   let '(body, g) := split_gauges l in
+  let yielded := match p, body with
+                 | OPoll, [OCalls _; OYield _ _ _ _ _] => true
+                 | _, _ => false end in
   let '(o1, settled, blocked, ended) :=
     match p with
     | OPoll =>
@@ -427,8 +430,11 @@ Definition ostep {C : Type} (lim : option nat) (o : ostate) (p : op C) (l : list
     if o_dropped o1 then mark_bad o1
     else if c_err (o_v o1) then o1      (* a request read and dropped by the failing poll may still be tracked *)
     else
-      (* C10: the stream ends only with nothing in flight *)
-      o_gauges settled blocked (chk10 o1 (negb ended || Nat.eqb a 0)) a b
+      (* C10: the stream ends only with nothing in flight;
+         C12 (a): a request is handed to the application only below the limit, so right after a
+         yield at most L requests are in flight *)
+      let o2 := chk12a o1 (negb yielded || match lim with Some l => Nat.leb a l | None => true end) in
+      o_gauges settled blocked (chk10 o2 (negb ended || Nat.eqb a 0)) a b
   | None => if o_dropped o1 then o1 else mark_bad o1
   end.
 
@@ -486,7 +492,7 @@ Fixpoint polls_of {C : Type} (ops : list (op C)) (tr : list (list obs))
     match l with
     | OCalls cs :: r :: _ =>
       match r with
-      | OStreamErr _ => [(cs, false)]
+      | OStreamErr _ | OFuel | OPanic => [(cs, false)]
       | OPending => (cs, true) :: polls_of ops' tr'
       | _ => (cs, false) :: polls_of ops' tr'
       end
